@@ -1173,8 +1173,8 @@ impl<'de, R: Read<'de>> Parser<R> {
             }
             self.eat_char();
             // This could overflow... if your integer is gigabytes long.
-            // Ignore that possibility.
-            exponent += 1;
+            // Saturate; such a magnitude is out of range anyway.
+            exponent = exponent.saturating_add(1);
         }
     }
 
@@ -1244,7 +1244,7 @@ impl<'de, R: Read<'de>> Parser<R> {
             }
 
             significand = significand * 10 + digit;
-            exponent -= 1;
+            exponent = exponent.saturating_sub(1);
         }
 
         if !at_least_one_digit {
